@@ -509,7 +509,7 @@ func shapeOf(d *tdesc) (s string, interesting bool) {
 func c19Doc() xmodel.GenCfg {
 	// the document declares p and q itself (for urn:x / urn:y in either assignment): tags resolve prefixes through
 	// the bindings given to Unmarshal only, and an unprefixed name in a tag means "no namespace"
-	return xmodel.GenCfg{MaxDepth: 4, MaxKids: 4, Names: []string{"a", "b", "a", "c"}, Values: []string{"1", "2", "3", "12", "x", " y ", "2.5", ""}}
+	return xmodel.GenCfg{MaxDepth: 4, MaxKids: 4, Stress: true, Names: []string{"a", "b", "a", "c"}, Values: []string{"1", "2", "3", "12", "x", " y ", "2.5", ""}}
 }
 
 // numeric attributes n on elements keep integer tags in range
